@@ -507,7 +507,9 @@ class ConvolutionCollection:
 
     def __del__(self):
         """Free C data associated with this object."""
-        libcider.free_convolution_collection(self._ccl)
+        # _ccl is NULL (or missing) when __init__ did not get to the C constructor
+        if getattr(self, "_ccl", None):
+            libcider.free_convolution_collection(self._ccl)
 
     @property
     def n0(self):
